@@ -46,13 +46,10 @@ func msg(secret int, tr pb.TransportType, covert string) []byte {
 func main() {
 	a := vh.Parse()
 	log.SetLevel(log.ErrorLevel)
-	iters := 150
-	if a.Thorough() {
-		iters = 1500
-	}
+	iters := 1 << 30 // bounded by time: a quarter of the budget
 	var ops int64
 	t0 := time.Now()
-	for it := 0; it < iters && time.Since(t0) < a.Budget; it++ {
+	for it := 0; it < iters && time.Since(t0) < a.Budget/4; it++ {
 		rm := vfix.Manager(conf(), sel, &tester{}, vfix.Transports{Min: true, Prefix: true}, nil)
 		var news, updates int64
 		rm.VerifCountDetector(&news, &updates)
